@@ -43,7 +43,7 @@ func main() {
 		return
 	}
 	r := evidence.New("C18", "fault_enumeration")
-	r.Rule("seq: case = (generated docker config file: absent | absent directory | document with unknown top-level keys of every JSON type, credsStore/credHelpers, auths absent/null/with plain, unknown-field, legacy-field, legacy-URL-key and opaque entries; file mode; layout; config path a regular file or a symbolic link — relative in the same directory, absolute or relative into another directory, dangling) × history of 8–30 Put/Get/Delete/reopen steps over 5–9 address forms of 2–3 hosts with credentials having empty parts, colons, non-ASCII and JSON-hostile text, one Put in six storing again exactly what Get currently answers, one case in five starting with Put(host, X) where only a legacy URL key holds X, followed by Delete of that key; after every step Get of every address, the parsed file, its mode and a freshly opened store are compared with the reference model. " +
+	r.Rule("seq: case = (generated docker config file: absent | absent directory | document with unknown top-level keys of every JSON type, credsStore/credHelpers, auths absent/null/with plain, unknown-field, legacy-field, legacy-URL-key and opaque entries; file mode; layout; config path a regular file or a symbolic link — relative in the same directory, absolute or relative into another directory, dangling) × history of 8–30 Put/Get/Delete/reopen steps over 5–9 address forms of 2–3 hosts with credentials having empty parts, colons, non-ASCII and JSON-hostile text, one step in eight a Put/Delete whose save is made to fail through the file system (config path is a directory | a parent component is a regular file; must return an error and change nothing), one case in five with a failed update of a stored address followed by a successful Put of another, one Put in six storing again exactly what Get currently answers, one case in five starting with Put(host, X) where only a legacy URL key holds X, followed by Delete of that key; after every step Get of every address, the parsed file, its mode and a freshly opened store are compared with the reference model. " +
 		"crash: case = scripted (14 templates: document, regular or symlinked config path, prefix operations, one Put/Delete); the operation is killed before each of its file-system-mutating system calls in turn (exhaustive per case) and the document read through the configured path compared with the complete old and new documents. " +
 		"conc: case = (document, 1–3 non-aliasing addresses, 4–16 goroutines × 2–6 operations with unique credentials); porcupine per address over the recorded history plus the final file; a reader polls the configured path (a third of the cases through a symbolic link). " +
 		"distinct = hash(phase, document shape, operation/address-form/credential-class sequence [, system-call sequence | observed interleaving]); " +
@@ -52,6 +52,7 @@ func main() {
 	r.Assume("pre-existing documents are well-formed docker configs: auths is an object (or null/absent), credsStore a string or null, credHelpers an object of strings")
 	r.Assume("crash points are entries of file-system-mutating system calls as recognised by tools/crashat.c; a kill inside one write(2) is not explored (the data goes to a temporary file)")
 	r.Assume("the file is always read through the configured path; whether a symbolic link at that path survives a save is recorded, not judged")
+	r.Assume("a save is made to fail only through the file system (config path occupied by a directory, parent component a regular file), and only in steps where the answers of Get before and after the operation differ")
 	r.Assume("Get of an address whose only matching entries are malformed (undecodable auth) is not judged")
 
 	// every temporary directory of the workers lives under one scratch directory that the
@@ -205,6 +206,72 @@ type seqStep struct {
 	Op   string `json:"op"`
 	Addr string `json:"addr,omitempty"`
 	Cred *cred  `json:"cred,omitempty"`
+	Fail string `json:"save_made_to_fail_by,omitempty"`
+}
+
+// breakSave changes the file system so that the next save of the config file
+// must fail (also for root), and returns the function that puts everything back:
+//
+//	path-is-directory  the config path itself is a non-empty directory (rename fails)
+//	parent-is-file     a component of the config directory's path is a regular file
+func breakSave(mode, path string) (restore func() error, err error) {
+	if _, e := os.Lstat(filepath.Dir(path)); e != nil {
+		mode = "parent-is-file" // the config directory does not exist yet
+	}
+	switch mode {
+	case "path-is-directory":
+		aside := path + ".aside"
+		moved := false
+		if _, e := os.Lstat(path); e == nil {
+			if err := os.Rename(path, aside); err != nil {
+				return nil, err
+			}
+			moved = true
+		}
+		if err := os.Mkdir(path, 0o700); err != nil {
+			return nil, err
+		}
+		if err := os.WriteFile(filepath.Join(path, "occupied"), []byte("x"), 0o600); err != nil {
+			return nil, err
+		}
+		return func() error {
+			if err := os.RemoveAll(path); err != nil {
+				return err
+			}
+			if moved {
+				return os.Rename(aside, path)
+			}
+			return nil
+		}, nil
+	default: // parent-is-file
+		p := filepath.Dir(path)
+		for {
+			if _, e := os.Lstat(filepath.Dir(p)); e == nil {
+				break
+			}
+			p = filepath.Dir(p) // the topmost component that does not exist yet
+		}
+		aside := p + ".aside"
+		moved := false
+		if _, e := os.Lstat(p); e == nil {
+			if err := os.Rename(p, aside); err != nil {
+				return nil, err
+			}
+			moved = true
+		}
+		if err := os.WriteFile(p, []byte("not a directory"), 0o600); err != nil {
+			return nil, err
+		}
+		return func() error {
+			if err := os.Remove(p); err != nil {
+				return err
+			}
+			if moved {
+				return os.Rename(aside, p)
+			}
+			return nil
+		}, nil
+	}
 }
 
 func runSeq(i int, rng *rand.Rand) (res worker.Result) {
@@ -260,22 +327,45 @@ func runSeq(i int, rng *rand.Rand) (res worker.Result) {
 			forced = append(forced, seqStep{Op: "delete", Addr: legacy})
 		}
 	}
+	// "failed update" slice: an address is stored, its update fails in the save, then
+	// another address is stored successfully: the first entry must still be there
+	if i%5 == 3 {
+		a, b := pool[0], pool[len(pool)-1]
+		x, y, z := genCred(rng), genCred(rng), genCred(rng)
+		x.U, y.U = "first"+x.U, "second"+y.U
+		fm := []string{"path-is-directory", "parent-is-file"}[rng.IntN(2)]
+		forced = append(forced, seqStep{Op: "put", Addr: a, Cred: &x}, seqStep{Op: "put", Addr: a, Cred: &y, Fail: fm}, seqStep{Op: "put", Addr: b, Cred: &z})
+	}
 	kind := "file"
 	if !d.HasHelpers && rng.IntN(4) == 0 {
 		kind = "dyn"
 	}
-	dir, err := os.MkdirTemp("", "verif-c18-")
+	// the config lives one level below the case directory, so that the directory
+	// holding it can be swapped for a regular file
+	top, err := os.MkdirTemp("", "verif-c18-")
 	if err != nil {
 		res.Violate("harness:mkdtemp", err.Error(), nil)
 		return
 	}
-	defer os.RemoveAll(dir)
+	defer os.RemoveAll(top)
+	dir := filepath.Join(top, "home")
+	if err := os.Mkdir(dir, 0o700); err != nil {
+		res.Violate("harness:mkdir", err.Error(), nil)
+		return
+	}
 	path, err := d.install(dir)
 	if err != nil {
 		res.Violate("harness:install", err.Error(), nil)
 		return
 	}
-	m := d.newModel()
+	m := d.newModel() // what the store answers
+	var mf *model     // what the file holds, while that differs (after a failed save that was not rolled back)
+	fileView := func() *model {
+		if mf != nil {
+			return mf
+		}
+		return m
+	}
 	var hist []seqStep
 	wit := func() map[string]any {
 		return map[string]any{"store": kind, "document": string(clip(d.Text, 4000)), "doc_state": d.Shape, "mode": fmt.Sprintf("%o", d.Mode), "config_path_is_symlink": d.Link, "pool": pool, "history": hist}
@@ -317,6 +407,7 @@ func runSeq(i int, rng *rand.Rand) (res worker.Result) {
 			res.Violate("file:unparseable", fmt.Sprintf("%s: config file does not parse: %v", where, err), wit())
 			return false
 		}
+		m := fileView() // from here on: the file and a freshly opened store
 		switch {
 		case m.doc == nil:
 			if present {
@@ -381,12 +472,76 @@ func runSeq(i int, rng *rand.Rand) (res worker.Result) {
 		op := rng.IntN(20)
 		var fc *cred
 		isForced := false
+		failMode := ""
 		if len(forced) > 0 {
 			isForced = true
 			f := forced[0]
 			forced = forced[1:]
-			addr, fc = f.Addr, f.Cred
+			addr, fc, failMode = f.Addr, f.Cred, f.Fail
 			op = map[string]int{"put": 0, "delete": 9, "get": 15, "reopen": 18}[f.Op]
+		} else if rng.IntN(8) == 0 {
+			failMode = []string{"path-is-directory", "parent-is-file"}[rng.IntN(2)]
+		}
+		// failingSave runs one Put/Delete that needs a save while the save cannot succeed:
+		// it must return an error and change nothing. What Get answers afterwards decides
+		// how the model goes on (rolled back / not rolled back / neither: stop).
+		failingSave := func(what string, after *model, run func() error) bool {
+			before, _, _ := m.get(addr)
+			want, _, _ := after.get(addr)
+			restore, err := breakSave(failMode, path)
+			if err != nil {
+				res.Violate("harness:break-save", err.Error(), wit())
+				return false
+			}
+			opErr := run()
+			if err := restore(); err != nil {
+				res.Violate("harness:restore", err.Error(), wit())
+				return false
+			}
+			res.Count("failing_saves", 1)
+			res.Observe("failing_save_shapes", what[:3]+"/"+failMode)
+			if opErr == nil {
+				res.Violate("failed-save:error-swallowed", fmt.Sprintf("%s returned nil although the config file could not be written (%s)", what, failMode), wit())
+				return false
+			}
+			got, gerr := st.Get(ctx, addr)
+			g := fromLib(got)
+			switch {
+			case gerr != nil:
+				res.Violate("get-error", fmt.Sprintf("Get(%q) after the failed %s: %v", addr, what, gerr), wit())
+				return false
+			case credIn(g, before):
+				res.Count("failing_saves_rolled_back", 1)
+			case credIn(g, want):
+				res.Count("failing_saves_not_rolled_back", 1)
+				{
+					res.Violate("failed-save:not-rolled-back", fmt.Sprintf("%s failed (%v), yet Get(%q) now answers %s instead of %s: the failed operation stays in the store and the next successful save writes it to the file", string(clip([]byte(what), 200)), opErr, addr, clip([]byte(g.String()), 200), clip([]byte(fmt.Sprint(before)), 200)), wit())
+				}
+				if mf == nil {
+					mf = m
+				}
+				after.saves = mf.saves
+				m = after
+			default:
+				res.Violate("failed-save:entry-neither-old-nor-new", fmt.Sprintf("%s failed (%v); Get(%q) now answers %s, which is neither the previous answer %v nor the refused one %v", what, opErr, addr, g, before, want), wit())
+				return false
+			}
+			return true
+		}
+		// a failing step is only run where the answers before and after the operation are
+		// both predictable and have nothing in common, so that Get tells which one holds
+		canFail := func(after *model) bool {
+			before, j1, _ := m.get(addr)
+			want, j2, _ := after.get(addr)
+			if !j1 || !j2 {
+				return false
+			}
+			for _, c := range want {
+				if credIn(c, before) {
+					return false
+				}
+			}
+			return true
 		}
 		switch {
 		case op < 9: // Put
@@ -400,6 +555,19 @@ func runSeq(i int, rng *rand.Rand) (res worker.Result) {
 			} else if acc, judged, _ := m.get(addr); !colon && judged && rng.IntN(6) == 0 && (acc[0] != cred{}) && !strings.Contains(acc[0].U, ":") {
 				c = acc[0] // storing again exactly what Get answers now (exact entry or legacy key)
 				res.Count("puts_identical_to_current_answer", 1)
+			}
+			var after *model
+			if failMode != "" && !colon {
+				after = m.clone()
+				after.put(addr, c)
+			}
+			if after != nil && canFail(after) {
+				hist = append(hist, seqStep{Op: "put", Addr: addr, Cred: &c, Fail: failMode})
+				opsig.WriteString("F" + formClass(addr))
+				if !failingSave(fmt.Sprintf("Put(%q, %s)", addr, c), after, func() error { return st.Put(ctx, addr, c.lib()) }) {
+					return
+				}
+				break
 			}
 			hist = append(hist, seqStep{Op: "put", Addr: addr, Cred: &c})
 			err := st.Put(ctx, addr, c.lib())
@@ -417,6 +585,7 @@ func runSeq(i int, rng *rand.Rand) (res worker.Result) {
 					return
 				}
 				m.put(addr, c)
+				mf = nil // a successful save writes the store's whole view
 				effPut++
 				res.Count("puts", 1)
 				res.Observe("credential_classes", c.class())
@@ -433,12 +602,26 @@ func runSeq(i int, rng *rand.Rand) (res worker.Result) {
 					addr = have[rng.IntN(len(have))]
 				}
 			}
+			var after *model
+			if _, exact := m.auths()[addr]; exact && failMode != "" {
+				after = m.clone()
+				after.del(addr)
+			}
+			if after != nil && canFail(after) {
+				hist = append(hist, seqStep{Op: "delete", Addr: addr, Fail: failMode})
+				opsig.WriteString("G" + formClass(addr))
+				if !failingSave(fmt.Sprintf("Delete(%q)", addr), after, func() error { return st.Delete(ctx, addr) }) {
+					return
+				}
+				break
+			}
 			hist = append(hist, seqStep{Op: "delete", Addr: addr})
 			if err := st.Delete(ctx, addr); err != nil {
 				res.Violate("delete-error", fmt.Sprintf("Delete(%q) failed: %v", addr, err), wit())
 				return
 			}
 			if m.del(addr) {
+				mf = nil
 				effDel++
 				res.Count("deletes_effective", 1)
 				opsig.WriteString("d" + formClass(addr))
@@ -457,6 +640,9 @@ func runSeq(i int, rng *rand.Rand) (res worker.Result) {
 				res.Violate("open-error", fmt.Sprintf("reopening the %s store failed: %v", kind, err), wit())
 				return
 			}
+			if mf != nil {
+				m, mf = mf, nil // a new store knows only what the file holds
+			}
 			res.Count("reopens", 1)
 		}
 		if !checkState(fmt.Sprintf("after step %d (%s %q)", s, hist[len(hist)-1].Op, hist[len(hist)-1].Addr), hist[len(hist)-1].Addr) {
@@ -470,7 +656,7 @@ func runSeq(i int, rng *rand.Rand) (res worker.Result) {
 	}
 	if d.Link != "" {
 		res.Count("seq_cases_with_symlinked_config_path", 1)
-		if !linkGone && m.saves > 0 {
+		if !linkGone && fileView().saves > 0 {
 			res.Count("symlink_survived_saves", 1)
 		}
 	}
